@@ -7,7 +7,7 @@ same pipeline / the same inputs are handed to the real library:
   desc["input_kinds"][root]  "list" | "array" | "range" | "intlist" | "intarray" | "series" | "series-int"
                              (for the int kinds the ELEMENTS of desc["inputs"] are JSON ints: `atom`s of the model)
   desc["internal_int"]       names whose entry of `internal_shapes=` is given as an int instead of a 1-tuple
-  desc["output_names"]       None | sorted list S  -> `map(output_names=set(S))`, model = driver C11 entry "map.sub"
+  desc["output_names"]       None | sorted list S  -> `map(output_names=set(S))`, model = `PF.Sub.mapSub` (driver C01Sub entry "map.sub")
   f["wrap"]                  "func" | "lambda" | "class" | "instance" | "partial"     what `PipeFunc` wraps
   f["picker"]                tuple-output function returns a dict; `output_picker=lambda r, n: r[n]`
   f["resources"]             {"kind": "static"|"callable", "scope": "map"|"element", "cpus": n} -> `resources=`, `resources_variable="res_"`
@@ -524,9 +524,15 @@ def run_impl(desc, storage, base):
         folder = tempfile.mkdtemp(dir=base)
     S = desc.get("output_names")
     extra = {"output_names": set(S)} if S is not None else {}
+    created = []
     try:
-        res = mapgen.quiet(p.map, py_inputs(desc), run_folder=folder, internal_shapes=internal_shapes_arg(desc), parallel=False,
-                           storage=storage, **extra)
+        if S is None:
+            res = mapgen.quiet(p.map, py_inputs(desc), run_folder=folder, internal_shapes=internal_shapes_arg(desc), parallel=False,
+                               storage=storage, **extra)
+        else:
+            with _RunInfoCreated() as created:
+                res = mapgen.quiet(p.map, py_inputs(desc), run_folder=folder, internal_shapes=internal_shapes_arg(desc), parallel=False,
+                                   storage=storage, **extra)
     except Exception as e:  # noqa: BLE001
         if folder:
             shutil.rmtree(folder, ignore_errors=True)
@@ -554,6 +560,21 @@ def run_impl(desc, storage, base):
                 obs["masks"] = {k: list(v) for k, v in mk.items() if isinstance(k, str)}
             except Exception as e:  # noqa: BLE001
                 obs["shapes"] = {"err": exc_enum(e)}
+        else:
+            # the run belongs to the PARTIAL pipeline: its shapes / masks are what the run itself recorded — `run_info.json` of the run
+            # folder when there is one, else the RunInfo object `prepare_run` created for this run (never `map_shapes` of the whole pipeline)
+            try:
+                if folder is not None:
+                    from pipefunc.map import RunInfo
+                    ri, obs["shapes_from"] = RunInfo.load(folder), "run_info.json"
+                elif len(created) == 1:
+                    ri, obs["shapes_from"] = created[0], "RunInfo.create"
+                else:
+                    raise LookupError(f"{len(created)} RunInfo objects created by one map call")  # noqa: TRY301
+                obs["shapes"] = {k: [int(n) for n in v] for k, v in ri.shapes.items() if isinstance(k, str)}
+                obs["masks"] = {k: [bool(b) for b in v] for k, v in ri.shape_masks.items() if isinstance(k, str)}
+            except Exception as e:  # noqa: BLE001
+                obs["shapes"] = {"err": exc_enum(e)}
     except Exception as e:  # noqa: BLE001
         return {"err": exc_enum(e), "at": "read", "msg": str(e)[:200]}
     finally:
@@ -562,24 +583,66 @@ def run_impl(desc, storage, base):
     return obs
 
 
+class _RunInfoCreated:
+    """Records the RunInfo objects `pipefunc.map._run_info.RunInfo.create` returns while a `map` call runs (a run without a run folder
+    leaves no other record of its shapes / masks); the method is put back on exit. Observation only: arguments and result pass through."""
+
+    def __enter__(self):
+        from pipefunc.map import _run_info
+        self.cls = _run_info.RunInfo
+        self.orig = self.cls.__dict__["create"]
+        got, f = [], self.orig.__func__
+
+        def create(cls, *a, **kw):
+            ri = f(cls, *a, **kw)
+            got.append(ri)
+            return ri
+
+        self.cls.create = classmethod(create)
+        return got
+
+    def __exit__(self, *exc):
+        self.cls.create = self.orig
+        return False
+
+
 def expected_res(desc):
     """what the `resources_variable` parameter must have received: a `Resources` with the declared cpus, once per call"""
     return {f["name"]: ["Resources", f["resources"]["cpus"]] for f in desc["funcs"] if f.get("resources")}
 
 
+def regenerated_away(desc):
+    """names of the kept functions whose AUTOGENERATED MapSpec the partial pipeline does not have: `Pipeline._validate_mapspec`
+    (`_pipeline/_base.py:1157-1170`, run by every `drop` of `subpipeline`) forgets generated '... -> t[…]' MapSpecs and generates them again
+    from the MapSpecs of the functions that are left (`create_missing_mapspecs`: a name that is an input of some MapSpec); a producer whose
+    consumers were all dropped is a plain function of the partial pipeline (nothing of it in RunInfo.shapes). `PF.Sub.prepare` only selects
+    functions, so the request hands the producer over without that MapSpec (glue on this side: see REPORT, what to distrust)."""
+    need_f, _ = _roots_needed(desc, desc["output_names"])
+    kept = [f for f in desc["funcs"] if f["name"] in need_f]
+    consumed = {s[0] for f in kept if f["mapspec"] for s in f["mapspec"]["inputs"]}
+    return [f["name"] for f in kept if f.get("autogen") and f["mapspec"] and not f["mapspec"]["inputs"] and not consumed & set(f["outputs"])]
+
+
 def sub_request(desc):
+    """the whole description (generated MapSpecs included) + which functions carry a GENERATED MapSpec: the Lean model
+    (`PF.Sub.mapRegen`, Model/SubPipeRegen.lean) forgets those on the partial pipeline and generates them again, as
+    `Pipeline._validate_mapspec` does; `regenerated_away` (the Python prediction of round 9's first version) is only cross-checked"""
     req = mapgen.model_request(desc)
-    req.update({"outputs": desc["output_names"], "auto": False})
+    req.update({"outputs": desc["output_names"], "auto": False,
+                "generated": [f["name"] for f in desc["funcs"] if f.get("autogen") and f["mapspec"] and not f["mapspec"]["inputs"]]})
     return {"m": "map.sub", "a": req}
 
 
 def sub_model_obs(r):
-    """model observation of a `map.sub` answer in the format of `props.c01.model_obs` (no shapes / generations)"""
-    now = r["now"]
-    if "err" in now:
-        return {"err": now["err"], "msg": str(now)}
-    return {"outputs": {k: terms.canon(v) for k, v in now["outputs"]}, "kept": now["kept"], "spec_agrees": now["spec_agrees"],
-            "calls": sorted(([n, [[k, terms.canon(v)] for k, v in sorted(kw, key=lambda kv: kv[0])]] for n, kw in now["calls"]), key=repr)}
+    """model observation of a `map.sub` answer of driver C01Sub: the dictionary of `props.c01.model_obs` (outputs, stored, calls, shapes,
+    masks, gens — all of the run of the PARTIAL pipeline) + kept, spec_agrees"""
+    if "err" in r:
+        return {"err": r["err"], "msg": f"{r.get('why')} at {r.get('at')}"}
+    from props.c01 import model_obs
+    obs = model_obs(r)
+    obs["kept"], obs["spec_agrees"] = r["kept"], r["spec_agrees"]
+    obs["plain_now"] = sorted(r.get("plain_now", []))
+    return obs
 
 
 # ------------------------------------------------------------------------------------------------ observations (not promised)
